@@ -278,61 +278,58 @@ def r_slots(ctx) -> None:
     ex = tail[-1] if len(tail) == 2 else None
     ok = False
     detail = "exclusion tail not found"
-    if ex is not None and isinstance(ex.expr, ast.Name):
-        defs = sorted(fv.cfg.reaching()[cs.node].get(ex.expr.id, ()))
-        vals = [fv.cfg.nodes[d].ast.value for d in defs if fv.cfg.nodes[d].kind == "stmt" and isinstance(fv.cfg.nodes[d].ast, ast.Assign)]
-        empties = [v for v in vals if isinstance(v, ast.Constant) and v.value == ""]
-        joins = [v for v in vals if not (isinstance(v, ast.Constant))]
-        if len(empties) == 1 and len(joins) == 1:
-            j = joins[0]
-            detail = f"exclusion tail is `{show(j)[:80]}`"
-            if isinstance(j, ast.BinOp) and isinstance(j.op, ast.Add) and isinstance(j.left, ast.Constant) and j.left.value == ";" and isinstance(j.right, ast.Call) and call_fname(j.right) == "join" \
-                    and isinstance(j.right.func.value, ast.Constant) and j.right.func.value.value == ";":
-                inner = j.right.args[0]
-                # map(str, sorted(X))  |  (str(x) for x in sorted(X))
-                if isinstance(inner, ast.Call) and call_fname(inner) == "map" and len(inner.args) == 2 and is_name(inner.args[0], "str"):
-                    seq = inner.args[1]
-                elif isinstance(inner, (ast.GeneratorExp, ast.ListComp)) and call_fname(inner.elt) == "str":
-                    seq = inner.generators[0].iter
-                else:
-                    seq = None
-                if seq is not None and isinstance(seq, ast.Call) and call_fname(seq) == "sorted" and not seq.keywords:
-                    src = seq.args[0]
-                    ok = isinstance(src, ast.Name)
-                    detail = f"exclusions come from `{show(src)}`"
-                elif seq is not None:
-                    detail = f"the exclusion list is `{show(inner)[:70]}`: it must be sorted as numbers before being converted to text (a text sort orders 10 before 9)"
+    vals: List[ast.AST] = []
+    if ex is not None:
+        t = fv.res.resolve(ex.expr, cs.node)
+        if is_sym(t, "alt") or is_sym(t, "phi"):
+            vals = list(t.args)
+        elif isinstance(ex.expr, ast.Name):
+            for d in sorted(fv.cfg.reaching()[cs.node].get(ex.expr.id, ())):
+                dn = fv.cfg.nodes[d]
+                if dn.kind == "stmt" and isinstance(dn.ast, ast.Assign):
+                    vals.append(fv.res.resolve(dn.ast.value, d))
+    empties = [v for v in vals if isinstance(v, ast.Constant) and v.value == ""]
+    joins = [v for v in vals if not isinstance(v, ast.Constant)]
+    if len(empties) == 1 and len(joins) == 1:
+        j = joins[0]
+        detail = f"exclusion tail is `{show(j)[:80]}`"
+        if isinstance(j, ast.BinOp) and isinstance(j.op, ast.Add) and isinstance(j.left, ast.Constant) and j.left.value == ";" and isinstance(j.right, ast.Call) and call_fname(j.right) == "join" \
+                and isinstance(j.right.func.value, ast.Constant) and j.right.func.value.value == ";":
+            inner = j.right.args[0]
+            seq = None
+            if isinstance(inner, ast.Call) and call_fname(inner) == "map" and len(inner.args) == 2 and is_name(inner.args[0], "str"):
+                seq = inner.args[1]
+            elif is_sym(inner, "comp") and call_fname(inner.args[1]) == "str" and is_sym(inner.args[2], "gen"):
+                seq = inner.args[2].args[0]
+            if seq is not None and isinstance(seq, ast.Call) and call_fname(seq) == "sorted" and not seq.keywords:
+                ok = True
+                detail = f"exclusions come from `{show(seq.args[0])[:50]}`"
+            elif seq is not None:
+                detail = f"the exclusion list is `{show(inner)[:70]}`: it must be sorted as numbers before being converted to text (a text sort orders 10 before 9)"
     ctx.rep.check(ok, rule, f"{f.qualname}/R-exclusions", "exclusion tail = ';' + ';'.join(str(n) for n in sorted(numbers)), empty when nothing is excluded", detail, where=w)
     # excluded wells must lie in the destination range; direction must be one of the two literals
-    fvt = fv
     ok_sub = ok_dir = False
-    for n, test, pol, r in fvt.raising_guards():
-        if raise_class(fvt, r)[0] != "ValueError":
+    for term, n, cls in _raising_terms_all(fv, cs.node):
+        if cls != "ValueError":
             continue
-        rt = fvt.res.resolve(test, n.id)
-        txt = show(rt)
-        if "difference" in txt and "range(dst_start" in txt.replace(" ", "").replace("range(dst_start,", "range(dst_start,") and pol:
-            ok_sub = "dst_end+1" in txt.replace(" ", "")
-        core, p = rt, pol
-        while isinstance(core, ast.UnaryOp) and isinstance(core.op, ast.Not):
-            core, p = core.operand, not p
-        if isinstance(core, ast.Compare) and is_name(core.left, "direction") and isinstance(core.comparators[0], (ast.Set, ast.Tuple, ast.List)):
-            vals = {e.value for e in core.comparators[0].elts if isinstance(e, ast.Constant)}
-            ok_dir = vals == {"left_to_right", "right_to_left"} and (isinstance(core.ops[0], ast.NotIn) == p) and fvt.cfg.dominates(n.id, cs.node)
+        for a in term:
+            txt = show(a.expr).replace(" ", "")
+            if "difference" in txt and "range(dst_start,dst_end+1)" in txt and a.pol:
+                ok_sub = True
+            core = a.expr
+            if len(term) == 1 and isinstance(core, ast.Compare) and is_name(core.left, "direction") and isinstance(core.comparators[0], (ast.Set, ast.Tuple, ast.List)):
+                vals_ = {e.value for e in core.comparators[0].elts if isinstance(e, ast.Constant)}
+                ok_dir = vals_ == {"left_to_right", "right_to_left"} and (isinstance(core.ops[0], ast.NotIn) == a.pol)
     ctx.rep.check(ok_sub, rule, f"{f.qualname}/R-exclusion-range", "excluded wells outside [dst_start, dst_end] raise ValueError", "excluded wells are not checked against range(dst_start, dst_end + 1)", where=w)
     ctx.rep.check(ok_dir, rule, f"{f.qualname}/R-direction-guard", "any other direction raises ValueError", "the direction is not restricted to the two literals before the record is built", where=w)
 
 
 # ---------------------------------------------------------------------------- sanitise
 def _raising_terms_all(fv, before: Optional[int] = None):
-    out = []
-    for n, test, pol_raise, r in fv.raising_guards():
-        if before is not None and not fv.cfg.dominates(n.id, before):
-            continue
-        rt = fv.res.resolve(test, n.id)
-        for term in dnf(rt, pol_raise):
-            out.append((term, n, raise_class(fv, r)[0]))
-    return out
+    """(term atoms, guard node, exception class) incl. guards inside new helper functions (see sa/guards.py)."""
+    from ..guards import raising_terms
+
+    return raising_terms(fv, before)
 
 
 def _str_checks(terms, var: str) -> Dict[str, bool]:
@@ -410,52 +407,57 @@ def validator_numbers(ctx) -> None:
 
 
 def _int_validated_names(fv, before: int) -> Set[str]:
-    """Names established to be ints before `before`: direct isinstance guards and the validation loop over (name, value) tuples."""
+    """Names established to be ints before `before`: isinstance guards (also inside new helpers), directly or through the
+    validation loop over (name, value) tuples; "each:<list>" when every element of a list is validated."""
     ok: Set[str] = set()
-    for term, n, cls in _raising_terms_all(fv, None):
-        if cls != "ValueError":
+    INTS = ("int", "numpy.integer", "np.integer", "numbers.Integral")
+
+    def harvest(term: ast.AST, pos: int) -> None:
+        for sub in ast.walk(term):
+            if isinstance(sub, ast.Tuple) and len(sub.elts) > pos and isinstance(sub.elts[pos], ast.Name):
+                ok.add(sub.elts[pos].id)
+            if is_sym(sub, "comp") and isinstance(sub.args[1], ast.Tuple) and len(sub.args[1].elts) > pos and is_sym(sub.args[2], "gen"):
+                e = sub.args[1].elts[pos]
+                src = strip_norm(sub.args[2].args[0])
+                if is_sym(e, "elem") and isinstance(src, ast.Name):
+                    ok.add("each:" + src.id)
+                elif is_sym(e, "elem") and (is_sym(src, "phi") or isinstance(src, ast.IfExp)):
+                    for a in (src.args if is_sym(src, "phi") else [src.body, src.orelse]):
+                        if isinstance(strip_norm(a), ast.Name):
+                            ok.add("each:" + strip_norm(a).id)
+                        for s2 in ast.walk(a):
+                            if isinstance(s2, ast.Name) and s2.id != "list":
+                                ok.add("each:" + s2.id)
+
+    for term, n, cls in _raising_terms_all(fv, before):
+        if cls != "ValueError" or len(term) != 1:
             continue
-        for a in term:
-            if a.kind == "isinstance" and not a.pol and any(t in ("int", "numpy.integer", "np.integer", "numbers.Integral") for t in a.types) and len(term) == 1:
-                loops = [h for h in fv.cfg.enclosing_loops(n.id) if fv.cfg.nodes[h].kind == "for"]
-                if not loops:
-                    if fv.cfg.dominates(n.id, before):
-                        ok.add(a.var)
-                    continue
-                head = loops[-1]
-                if fv.cfg.loop_has_break.get(head) or head not in fv.cfg.completed_loops_at(before):
-                    continue
-                lp = fv.cfg.nodes[head]
-                tgt = lp.ast.target
-                names = [getattr(e, "id", None) for e in tgt.elts] if isinstance(tgt, ast.Tuple) else [getattr(tgt, "id", None)]
-                raw_var = None
-                for sub in ast.walk(fv.cfg.nodes[n.id].ast):
-                    if isinstance(sub, ast.Call) and call_fname(sub) == "isinstance" and isinstance(sub.args[0], ast.Name):
-                        raw_var = sub.args[0].id
-                if raw_var not in names:
-                    continue
-                pos = names.index(raw_var)
-                # every tuple listed in the iterated list contributes its element at `pos`
-                it_defs = []
-                if isinstance(lp.ast.iter, ast.Name):
-                    for d in sorted(fv.cfg.reaching()[head].get(lp.ast.iter.id, ())):
-                        dn = fv.cfg.nodes[d]
-                        if dn.kind == "stmt" and isinstance(dn.ast, (ast.Assign, ast.AugAssign)):
-                            it_defs.append(dn.ast.value)
-                    # augmented assignments extend the list: include the original definition as well
+        a = term[0]
+        if not (a.kind == "isinstance" and not a.pol and any(t in INTS for t in a.types)):
+            continue
+        subj = a.expr.args[0]
+        if isinstance(subj, ast.Name):
+            ok.add(subj.id)
+        elif is_sym(subj, "elem") and isinstance(strip_norm(subj.args[1]), ast.Name):
+            ok.add("each:" + strip_norm(subj.args[1]).id)
+        elif is_sym(subj, "item") and is_sym(subj.args[0], "elem") and isinstance(subj.args[1], ast.Constant):
+            pos = subj.args[1].value
+            loopid = subj.args[0].args[0].value if isinstance(subj.args[0].args[0], ast.Constant) else ""
+            harvest(subj.args[0].args[1], pos)
+            # in-place extensions of the iterated list before the loop (list.extend / append / +=)
+            if isinstance(loopid, str) and loopid.startswith("loop@"):
+                head = int(loopid.split("@")[1])
+                raw_it = fv.cfg.nodes[head].ast.iter
+                if isinstance(raw_it, ast.Name):
+                    for cs in fv.calls():
+                        if isinstance(cs.call.func, ast.Attribute) and cs.call.func.attr in ("extend", "append") and is_name(cs.call.func.value, raw_it.id) and fv.cfg.dominates(cs.node, head):
+                            for arg in cs.call.args:
+                                harvest(fv.res.resolve(arg, cs.node), pos)
                     for dn in fv.cfg.nodes:
-                        if dn.kind == "stmt" and isinstance(dn.ast, ast.Assign) and any(is_name(t, lp.ast.iter.id) for t in dn.ast.targets) and fv.cfg.dominates(dn.id, head):
-                            it_defs.append(dn.ast.value)
-                else:
-                    it_defs.append(lp.ast.iter)
-                for v in it_defs:
-                    for sub in ast.walk(v):
-                        if isinstance(sub, ast.Tuple) and len(sub.elts) == len(names) and isinstance(sub.elts[pos], ast.Name):
-                            ok.add(sub.elts[pos].id)
-                        if isinstance(sub, (ast.ListComp, ast.GeneratorExp)) and isinstance(sub.elt, ast.Tuple) and len(sub.elt.elts) == len(names):
-                            src = sub.generators[0].iter
-                            if isinstance(src, ast.Name):
-                                ok.add("each:" + src.id)
+                        if dn.kind == "stmt" and isinstance(dn.ast, (ast.Assign, ast.AugAssign)) and fv.cfg.dominates(dn.id, head):
+                            tg = dn.ast.targets[0] if isinstance(dn.ast, ast.Assign) else dn.ast.target
+                            if is_name(tg, raw_it.id):
+                                harvest(fv.res.resolve(dn.ast.value, dn.id), pos)
     return ok
 
 
@@ -471,8 +473,11 @@ def simple_emitters(ctx) -> None:
             # comment lines: no ';' (checked before the first append), split at line breaks, stripped, non-empty
             t = fv.res.resolve(holes[0].expr, cs.node) if holes else None
             terms = _raising_terms_all(fv, cs.node)
-            sep = any(cls == "ValueError" and len(tm) == 1 and isinstance(tm[0].expr, ast.Compare) and isinstance(tm[0].expr.ops[0], ast.In) and tm[0].pol and isinstance(tm[0].expr.left, ast.Constant) and tm[0].expr.left.value == ";"
-                      and is_name(tm[0].expr.comparators[0], "comment") for tm, n, cls in terms)
+            def _is_sep(a):
+                return isinstance(a.expr, ast.Compare) and isinstance(a.expr.ops[0], ast.In) and a.pol and isinstance(a.expr.left, ast.Constant) and a.expr.left.value == ";" and is_name(a.expr.comparators[0], "comment")
+
+            # (the guard may sit behind the `if not comment: return` early exit: truthiness atoms of the comment are fine)
+            sep = any(cls == "ValueError" and any(_is_sep(a) for a in tm) and all(_is_sep(a) or a.kind in ("truthy", "none") for a in tm) for tm, n, cls in terms)
             ctx.rep.check(sep, rule, f"{f.qualname}/comment-separator", "a ';' anywhere in the comment raises ValueError before any line is appended", "the comment text is not checked for ';' before the record is appended", where=w)
             split = t is not None and any(isinstance(s, ast.Call) and call_fname(s) in ("split", "splitlines") for s in ast.walk(t))
             ctx.rep.check(split, rule, f"{f.qualname}/comment-lines", "multi-line comments become one C record per line", f"the comment record carries `{show(t)[:60] if t is not None else None}`: line breaks are not split into separate records", where=w)
